@@ -24,16 +24,22 @@ kf = json.load(open(kf_path))
 pp = os.path.join(V, "proposed", prop + ".findings.json")
 new = json.load(open(pp))["findings"] if os.path.exists(pp) else []
 by_id = {f["id"]: f for f in kf["findings"]}
+import fnmatch
+def _fx(i):
+    for pat, c in fixed.items():
+        if fnmatch.fnmatchcase(i, pat):
+            return c
+    return None
 for f in new:
-    if f["id"] in drop:
+    if any(fnmatch.fnmatchcase(f["id"], d) for d in drop):
         continue
-    if f["id"] in fixed:
-        f = {"id": f["id"], "property": f["property"], "status": "fixed", "commit": fixed[f["id"]], "what": f["what"]}
+    if _fx(f["id"]):
+        f = {"id": f["id"], "property": f["property"], "status": "fixed", "commit": _fx(f["id"]), "what": f["what"]}
     if f.get("status") == "fixed" and "match" in f:
         f.pop("match")
     by_id[f["id"]] = f
 for k, c in fixed.items():
-    if k not in by_id:
+    if not any(fnmatch.fnmatchcase(i, k) for i in by_id):
         raise SystemExit("fixed id %s not among findings" % k)
 kf["findings"] = sorted(by_id.values(), key=lambda f: f["id"])
 kf["fixed_log"] = sorted({"fixed: property=%s %s %s" % (f["property"], f["commit"], f["what"]) for f in kf["findings"] if f.get("status") == "fixed"})
